@@ -93,7 +93,9 @@ func (conR *ConsensusReactor) SwitchToConsensus(state *sm.State) {
 	validators := state.Validators
 	height := state.LastBlockHeight + 1 // Next desired block height
 
-	// RoundState fields
+	// RoundState fields. The peers' gossip routines run already (AddPeer starts
+	// them in fast-sync mode too) and read the round state under cs.mtx.
+	cs.mtx.Lock()
 	cs.updateHeight(height)
 	cs.updateRoundStep(0, RoundStepNewHeight)
 	cs.StartTime = cs.timeoutParams.Commit(time.Now())
@@ -112,6 +114,7 @@ func (conR *ConsensusReactor) SwitchToConsensus(state *sm.State) {
 
 	// Finally, broadcast RoundState
 	cs.newStep()
+	cs.mtx.Unlock()
 
 	conR.fastSync = false
 	cs.Start()
